@@ -130,6 +130,8 @@ def run(ctx):
     scalar_operand_checked(db, rep, "D1h-SCALAR-OPERAND-CHECKED")
     array_operand_checked(db, rep, "D1j-ARRAY-OPERAND-CHECKED")
     counter_unchanged_on_refusal(db, rep, "D1k-COUNTER-ON-REFUSAL")
+    no_abort_on_program_value(db, rep, "D1l-NO-ABORT-ON-VALUE")
+    label_cursor_reset(db, rep, "D1m-LABEL-CURSOR-RESET")
     d3c_unroll_bounded(db, rep)
     d1i_divisor_positive(db, rep)
 
@@ -677,3 +679,77 @@ def d2(db, rep):
                   "the previous code object is released and code_exec reset on every path to this return",
                   "orc_compiler_compile_program can return (line %s) without having released the code object of an earlier compile / reset "
                   "program->code_exec: a refused or failed recompile leaves the old machine code installed although the result says otherwise" % r.line, line=r.line)
+
+
+def no_abort_on_program_value(db, rep, rule):
+    """"... returns a result code ... without crashing, aborting".  The value of a constant is whatever the program says (any
+    64-bit pattern through orc_program_add_constant_int64 or a literal in the text).  No assertion failure (ORC_ASSERT expands
+    to `if (!(c)) { ORC_ERROR (...); abort (); }`) on the compile path may therefore be controlled by a comparison of a
+    variable's `.value`: such a site is an abort some program can reach.  Refusing the program (ORC_COMPILER_ERROR) is the
+    library's way to say "not supported".  The same holds for the other fields a program sets freely and the compiler does not
+    validate beforehand; only `.value` is armed, because sizes, alignments and operand kinds are checked by
+    orc_compiler_check_sizes before a back end sees them (D1h, D1j)."""
+    import re
+    n = 0
+    for f in db.all_functions():
+        aborts = [c for c in f.calls() if c.name == "abort"]
+        if not aborts:
+            continue
+        fc = Facts(f)
+        seen = set()
+        for c in aborts:
+            if c.id in seen:
+                continue
+            seen.add(c.id)
+            n += 1
+            hit = None
+            for cd in fc.conds(c):
+                if cd[0] == "switch":
+                    txt = unparse(cd[1])
+                else:
+                    txt = unparse(cd[0])
+                if re.search(r"(\]|\)|>|\w)\s*(\.|->)\s*value\s*\.\s*(i|f|x2|x4)\b", txt):
+                    hit = txt
+            if hit is not None:
+                rep.saw(f)
+            rep.check(hit is None, rule, where(f), "%s@%s" % (f.name, c.line), "no assertion is controlled by the value of a program's constant",
+                      "%s aborts the process (ORC_ASSERT, line %s) under the condition `%s` on a constant's value: the value is chosen by the program "
+                      "(orc_program_add_constant_int64, a literal in .orc text), so a well-formed program makes orc_program_compile abort instead of "
+                      "returning a result code" % (f.name, c.line, (hit or "")[:100]), line=c.line)
+    if n < 60:
+        raise AnalysisBroken("only %d assertion sites found" % n)
+    return n
+
+
+def label_cursor_reset(db, rep, rule):
+    """compiler->labels[] / labels_int[] have ORC_N_LABELS entries; the back ends that number their labels with
+    orc_compiler_label_new() (a cursor, n_labels) stay below that bound only if each emission pass starts from the same cursor.
+    A back end that emits twice (altivec: the first pass discovers the pooled constants) clears the label table in between; it has
+    to put the cursor back as well, or the second pass draws fresh numbers for every pooled constant and
+    `compiler->labels[label] = ptr` stores past the table (3 + 2 x 20 > 40)."""
+    n = 0
+    for f in db.all_functions():
+        clears = [c for c in f.calls() if c.name in ("memset", "__builtin_memset") and c.args() and (access_path(c.args()[0]) or "").endswith("->labels")]
+        if clears and not any(c.name == "orc_compiler_label_new" for c in f.calls()):
+            continue                # label numbers of this back end are constants of its skeleton (x86): no cursor to reset
+        for c in clears:
+            n += 1
+            rep.saw(f)
+
+            def release(e):
+                if e.k == "BinaryOperator" and e.op == "=" and (access_path(e.c[0]) or "").endswith("->n_labels"):
+                    return True
+                return False
+
+            def err_edge(b, idx):
+                # the exit taken because the first pass already failed draws no label
+                blk = f.blocks[b]
+                return not (blk.cond is not None and "error" in unparse(blk.cond) and f.edge_kind(b, idx) is True)
+            wit = paths_avoiding(f, c, release, edge_filter=err_edge)
+            rep.check(wit is None, rule, where(f), "%s@%s" % (f.name, c.line), "a pass that clears the label table also resets the label cursor",
+                      "%s clears compiler->labels for another emission pass (line %s) but leaves compiler->n_labels where the first pass left it: "
+                      "every label drawn with orc_compiler_label_new in the first pass is drawn again with a new number, and with enough pooled "
+                      "constants the number reaches ORC_N_LABELS - the label store writes past the table" % (f.name, c.line), line=c.line)
+    if n < 1:
+        raise AnalysisBroken("no back end clears the label table between passes any more (anchor drifted)")
+    return n
